@@ -1,4 +1,4 @@
 From Coq Require Import Extraction ExtrOcamlBasic.
 From PV Require Import Lib.ExtBase C25.Model.
 Extraction "model.ml" ext_base_z ext_base_n ext_base_nat ext_base_res ext_base_list
-  run_report step access validate_owner validate_user setup_key outcome_code result_code.
+  run_report prepared127 step access validate_owner validate_user setup_key outcome_code result_code.
